@@ -22,7 +22,21 @@ RULE = ("a case is a HISTORY of 1-12 reads/writes applied to a dense and a spars
         "(duplicates), linear int/list/slice, regions of ints/slices(open, closed, stepped, negative)/index lists; right-hand sides: "
         "scalar, 0, value arrays mixing 0 and non-0, exactly shaped arrays/tensors; growth of extent and order. Separate short streams "
         "hit the input classes of the open findings. non-trivial = at least one write and one nonzero somewhere; distinct = distinct history")
-CORRESPONDENCE_ONLY = []
+CORRESPONDENCE_ONLY = [
+    "sptensor region read (subdims + tt_renumber, model sp_region_get): proved to hold the right value at the renumbered subscript of "
+    "every region position; that the returned sptensor is itself well-formed / its stored order is compared raw in every history only",
+    "sparse region writes: the model's decidable side conditions (region positions pairwise distinct, padded old subscripts inside "
+    "the grown shape) are proved never to fail for subscript-array writes only; for region keys they are exercised by the histories",
+    "A-16 class (two index lists / list and integer around a slice): numpy advanced-indexing meaning of dense keys is not modelled",
+    "rejection of inadmissible requests (only dense linear assignment at or beyond prod(shape) is generated, A-17)",
+]
+ASSUMPTIONS = [
+    "resolve_get/resolve_set (Python slice.indices semantics, negative indices, F-order linear indices, Cartesian regions) are the "
+    "meaning of a key; validated against pyttb/numpy on every history, not proved against CPython",
+    "right-hand sides are scalars or exactly shaped (one value per addressed position); numpy broadcasting of other shapes, boolean "
+    "masks, tenmat/sptenmat assignment are outside the theorem",
+    "sptensor has no linear assignment (documented): such operations are inadmissible for the sparse class",
+]
 EXPLANATION = ("Refinement: the dense and the sparse executable model each simulate the abstract array (shape, f) step by step "
                "(theorems for all states/ops); the models are tied to pyttb by histories compared state-by-state.")
 
